@@ -136,11 +136,12 @@ def prepare(ctx):
     if ok and getattr(ctx, 'tier', 'quick') == 'thorough' and os.environ.get('VERIF_NO_LEANCHECKER') != '1':
         t1 = time.time()
         try:
-            code, out = _run(['lake', 'env', 'leanchecker', f'HabuVerif.Props.{ctx.pid}'], LEAN_DIR, 1800)
+            mods = [f'HabuVerif.Props.{ctx.pid}'] + [t for t in ctx.gen_info.get('extra_targets', []) if t.startswith('HabuVerif.Props.')]
+            code, out = _run(['lake', 'env', 'leanchecker'] + mods, LEAN_DIR, 1800)
         except Exception as e:  # noqa: BLE001
             code, out = 2, f'leanchecker could not run: {e}'
         bad = code != 0 or 'uncaught exception' in out or 'error' in out.lower()
-        ctx.leanchecker = {'module': f'HabuVerif.Props.{ctx.pid}', 'ok': not bad, 'seconds': round(time.time() - t1, 1)}
+        ctx.leanchecker = {'module': ' '.join(mods), 'ok': not bad, 'seconds': round(time.time() - t1, 1)}
         if bad:
             ctx.build_ok = False
             ctx.build_log = (log + '\nleanchecker: ' + out[-2000:])
